@@ -12,6 +12,30 @@ def _dispatch(prop, t):
     if prop == "C14":
         from . import check_runtime
         return check_runtime.main_c14(t)
+    if prop == "C04":
+        from . import check_expr
+        return check_expr.check("C04", t, ["options"],
+            "every (graph, dictionary) CASE TLC exports for the family: all graphs of <= N nodes rooted at an Option "
+            "(defaults: constant / template / factory / chained Option; domains: container / predicate / option-dependent "
+            "predicate) x every dictionary over the keys the graph mentions (falsy values, templated strings, list indices, "
+            "nested sections) plus one unmentioned key; evaluate()/validate() of a freshly built real graph compared with "
+            "the specification's Eval/Validate; non-trivial = root is an Option",
+            ["TLC + Json module trusted", "confectioner modelled as it behaves", "well-sorted dictionaries"])
+    if prop == "C09":
+        from . import check_expr
+        return check_expr.check("C09", t, ["options"],
+            "same CASE export as C04 (roots: Template and Option with templated values/defaults, references to depth 3); "
+            "evaluate() = the specification's transitive substitution, keys()/explain() include every key it reads; "
+            "non-trivial = the graph or the dictionary contains a template",
+            ["TLC + Json module trusted", "confectioner modelled as it behaves", "template parameters never contain braces"])
+    if prop in ("C05", "C10", "C11", "C03"):
+        from . import check_expr
+        fams = {"C05": ["combinators"], "C10": ["combinators", "options"], "C11": ["combinators", "options"],
+                "C03": ["combinators", "options"]}[prop]
+        return check_expr.check(prop, t, fams, check_expr.RULES[prop], check_expr.ASSUME)
+    if prop == "C15":
+        from . import check_threads
+        return check_threads.main(t)
     raise MachineryError("no check registered for %s" % prop)
 
 
@@ -23,6 +47,12 @@ def _replay(path):
     if kind == "runtime":
         from . import check_runtime
         return check_runtime.replay_file(doc)
+    if kind == "expr":
+        from . import check_expr
+        return check_expr.replay_file(doc)
+    if kind in ("schedule", "rt-trace"):
+        from . import check_threads
+        return check_threads.replay_file(doc)
     raise MachineryError("unknown replay kind %r" % kind)
 
 
